@@ -2,6 +2,8 @@
 package main
 
 import (
+	"os"
+	"strings"
 	"time"
 
 	"github.com/daeuniverse/dae/control"
@@ -15,31 +17,66 @@ func main() {
 	// have an empty deviation dimension, so {p,1} there is {p,0}.
 	epSmallQ := []B{{0, 0}, {1, 1}, {2, 1}}
 	epSmallT := []B{{0, 0}, {1, 1}, {2, 1}, {3, 1}}
+	// The quick tier runs harness 2 as 5 scenarios (3 alone + 2 groups whose first free decision picks the member):
+	// one set of workers and one time share per group instead of per member. The thorough tier, a worker, a replay
+	// and an explicit -scenario see every scenario under its own name.
+	tp, singles, groups := control.VerifTaskPoolScenarios(), control.VerifEndpointPoolScenarios(), control.VerifEndpointPoolQuickScenarios()
+	scenarios := append(append([]*vsched.Scenario{}, tp...), groups...)
+	seen := map[string]bool{}
+	for _, sc := range scenarios {
+		seen[sc.Name] = true
+	}
+	quickOnly := true
+	for i, a := range os.Args[1:] {
+		a = strings.TrimLeft(a, "-")
+		for _, f := range []string{"vsworker", "replay", "scenario"} {
+			if a == f || strings.HasPrefix(a, f+"=") {
+				quickOnly = false
+			}
+		}
+		if (a == "tier" && i+2 < len(os.Args) && os.Args[i+2] == "thorough") || a == "tier=thorough" {
+			scenarios, quickOnly = append(append([]*vsched.Scenario{}, tp...), singles...), true
+			break
+		}
+	}
+	if !quickOnly {
+		for _, sc := range singles {
+			if !seen[sc.Name] {
+				scenarios = append(scenarios, sc)
+			}
+		}
+	}
 	p := &vdrive.Plan{
-		Scenarios:      append(control.VerifTaskPoolScenarios(), control.VerifEndpointPoolScenarios()...),
+		Scenarios:      scenarios,
 		QuickBounds:    []B{{0, 0}, {1, 1}, {2, 1}},
 		ThoroughBounds: []B{{0, 0}, {1, 1}, {2, 1}, {2, 2}, {3, 2}},
 		PerScenario: map[string]map[string][]B{
 			"tp-overflow":    {"quick": {{0, 0}, {1, 0}, {1, 1}}, "thorough": {{0, 0}, {1, 1}, {2, 1}, {2, 2}}},
 			"tp-2keys-3prod": {"quick": {{0, 0}, {1, 0}, {2, 0}}, "thorough": {{0, 0}, {2, 0}, {1, 1}, {2, 1}}},
 
-			"ep-3goc-dial":               {"quick": {{0, 0}, {0, 2}, {1, 1}}, "thorough": {{0, 0}, {0, 2}, {1, 1}, {1, 2}, {2, 1}}},
-			"ep-2goc-seq-dial":           {"quick": {{0, 0}, {1, 1}, {1, 2}, {2, 1}}, "thorough": {{0, 0}, {1, 2}, {2, 2}, {3, 2}}},
-			"ep-goc-vs-readerr":          {"quick": epSmallQ, "thorough": epSmallT},
-			"ep-goc-vs-writeerr":         {"quick": {{0, 0}, {1, 1}, {1, 2}, {2, 1}}, "thorough": {{0, 0}, {1, 2}, {2, 2}, {3, 2}}},
-			"ep-goc-vs-invalidate-fresh": {"quick": epSmallQ, "thorough": epSmallT},
-			"ep-goc-vs-invalidate-used":  {"quick": {{0, 0}, {1, 1}, {2, 1}, {3, 1}}, "thorough": {{0, 0}, {2, 1}, {3, 1}, {4, 1}}},
-			"ep-create-vs-invalidate":    {"quick": epSmallQ, "thorough": epSmallT},
-			"ep-goc-vs-janitor":          {"quick": {{0, 0}, {1, 0}, {0, 1}, {2, 0}}, "thorough": {{0, 0}, {2, 0}, {1, 1}, {2, 1}}},
-			// the unchanged tree violates the statement in this scenario with 2 preemptions (pool Reset racing with an
-			// endpoint creation orphans the new endpoint from later health invalidations, see the report):
-			// quick stays below that depth, thorough reaches it.
-			"ep-goc-vs-reset":           {"quick": epSmallQ, "thorough": epSmallT},
-			"ep-goc-vs-close":           {"quick": epSmallQ, "thorough": epSmallT},
-			"ep-goc-vs-remove":          {"quick": epSmallQ, "thorough": epSmallT},
-			"ep-adopt-shared-tuple":     {"quick": epSmallQ, "thorough": epSmallT},
-			"ep-adopt-vs-readerr":       {"quick": epSmallQ, "thorough": epSmallT},
-			"ep-adopt-distinct-tracker": {"quick": epSmallQ, "thorough": epSmallT},
+			// quick keeps the bounds below complete within its budget on an idle 16-core box (single-process sizes in
+			// executions next to the top quick bound); the wider levels live in thorough.
+			"ep-3goc-dial":               {"quick": {{0, 0}, {0, 2}, {1, 0}}, "thorough": {{0, 0}, {0, 2}, {1, 1}, {1, 2}, {2, 1}}}, // 30k
+			"ep-2goc-seq-dial":           {"quick": {{0, 0}, {1, 1}, {1, 2}, {2, 1}}, "thorough": {{0, 0}, {1, 2}, {2, 2}, {3, 2}}}, // 48k
+			"ep-goc-vs-readerr":          {"quick": epSmallQ, "thorough": epSmallT},                                                 // 9k
+			"ep-goc-vs-writeerr":         {"quick": {{0, 0}, {1, 1}}, "thorough": {{0, 0}, {1, 2}, {2, 1}, {2, 2}, {3, 2}}},         // 9k
+			"ep-goc-vs-invalidate-fresh": {"quick": {{0, 0}, {1, 1}}, "thorough": epSmallT},                                         // 1k ((2,1): 260k)
+			"ep-goc-vs-invalidate-used":  {"quick": {{0, 0}, {1, 1}, {2, 1}, {3, 1}}, "thorough": {{0, 0}, {2, 1}, {3, 1}, {4, 1}}}, // 17k
+			"ep-create-vs-invalidate":    {"quick": {{0, 0}, {1, 1}}, "thorough": epSmallT},                                         // 2k ((2,1): 310k)
+			"ep-goc-vs-janitor":          {"quick": {{0, 0}, {1, 0}, {0, 1}, {2, 0}}, "thorough": {{0, 0}, {2, 0}, {1, 1}, {2, 1}}}, // 11k
+			"ep-goc-vs-reset":            {"quick": epSmallQ, "thorough": epSmallT},                                                 // 11k
+			"ep-goc-vs-close":            {"quick": epSmallQ, "thorough": epSmallT},                                                 // 24k
+			"ep-goc-vs-remove":           {"quick": epSmallQ, "thorough": epSmallT},                                                 // 7k
+			"ep-stale-remove-seq":        {"quick": epSmallQ, "thorough": epSmallT},                                                 // 1k
+			"ep-stale-remove-race":       {"quick": {{0, 0}, {1, 1}}, "thorough": {{0, 0}, {1, 1}, {2, 1}, {2, 2}}},                 // 63k
+			"ep-adopt-shared-tuple":      {"quick": epSmallQ, "thorough": epSmallT},                                                 // 7k
+			"ep-adopt-vs-readerr":        {"quick": epSmallQ, "thorough": epSmallT},                                                 // 7k
+			"ep-adopt-distinct-tracker":  {"quick": epSmallQ, "thorough": epSmallT},                                                 // 11k
+			"ep-closed-gen-shared-tuple": {"quick": epSmallQ, "thorough": epSmallT},                                                 // 30k
+			"ep-closed-gen-late-track":   {"quick": epSmallQ, "thorough": epSmallT},
+			// quick-tier groups (sum of the members' sizes)
+			"epq-depth2": {"quick": epSmallQ, "thorough": epSmallT},                         // 170k
+			"epq-depth1": {"quick": {{0, 0}, {1, 1}}, "thorough": {{0, 0}, {1, 1}, {2, 1}}}, // 75k                                                 // 34k
 		},
 		BudgetQuick:    170 * time.Second,
 		BudgetThorough: 20 * time.Minute,
